@@ -25,6 +25,7 @@ func init() {
 
 func runC16(c *Ctx) {
 	p := c.P
+	defer runC16NextEnvelopeAfterFlush(c)
 	defer c.ImportRules("C11", "C11.13")
 	rwT := types.NewPointer(p.MustNamed("responseWriter"))
 	rwFlushMsg := p.MethodOf(rwT, "flushMessage")
@@ -661,4 +662,50 @@ func runC16(c *Ctx) {
 	})
 	c.Check(effects == 0, "C16.5", FuncName(fl), "no-state-change", fl.Pos(),
 		"Flush() stores nothing and calls nothing but (at most) the underlying Flusher", "the handler-visible Flush() changes response-writer state: handlers that flush and handlers that do not are forwarded differently")
+}
+
+// runC16NextEnvelopeAfterFlush: C16.6 (seed C16g).  The re-framing writer flushes after each
+// complete message, and the flush sits on the path that completes a message's payload.  The state
+// 'expecting the next envelope' (writingEnvelope = true) therefore means 'the previous message was
+// flushed'.  A second way into that state - e.g. a shortcut for a zero-length message taken right
+// after its envelope was processed - leaves the rewritten envelope unflushed in the HTTP/2 writer:
+// in a strict ping-pong the client never sees the (empty) answer.  So outside the initialisation,
+// every store of writingEnvelope = true is preceded, on every path from the function's entry, by
+// the response writer's flushMessage.
+func runC16NextEnvelopeAfterFlush(c *Ctx) {
+	p := c.P
+	c.Rule("C16.6", "the re-framing writer expects the next envelope only after the finished message was flushed", 1)
+	ewT := types.NewPointer(p.MustNamed("envelopingWriter"))
+	wenvF := p.MustField("envelopingWriter", "writingEnvelope")
+	initF := p.MustField("envelopingWriter", "initialized")
+	n := 0
+	for _, fn := range readerFuncs(p, ewT) {
+		// the initialisation (it sets the 'initialized' flag) starts in that state by definition
+		isInit := len(StoresToField(fn, initF)) > 0
+		if isInit {
+			continue
+		}
+		for _, st := range StoresToField(fn, wenvF) {
+			b, isK := ConstBool(st.Val)
+			if !isK || !b {
+				continue
+			}
+			n++
+			isFlush := func(in ssa.Instruction) bool {
+				ci, ok := in.(ssa.CallInstruction)
+				if !ok {
+					return false
+				}
+				sc := ci.Common().StaticCallee()
+				return sc != nil && N(sc) == "flushMessage"
+			}
+			found, path := PathQuery{Target: func(in ssa.Instruction) bool { return in == ssa.Instruction(st) }, Avoid: isFlush}.Search(fn, nil)
+			c.Check(!found, "C16.6", FuncName(fn), "next-envelope-state-after-flush", st.Pos(),
+				"every path to this return to the 'expecting an envelope' state flushed the finished message first",
+				"the writer returns to the 'expecting the next envelope' state on a path that did not flush ("+witnessString(p, path)+"): a message completed on that path (a zero-length one, say) stays in the client connection's buffer until something else is written - a client that waits for it before sending its next message waits forever")
+		}
+	}
+	if n == 0 {
+		c.Bad("C16.6", "envelopingWriter", "next-envelope-state-after-flush", token.NoPos, "no transition back to the 'expecting an envelope' state found outside the initialisation: shape changed")
+	}
 }
